@@ -1310,3 +1310,39 @@ fn ctglen_command(archive: PathBuf, sample: String, contig: String) -> Result<()
     decompressor.close()?;
     Ok(())
 }
+
+/// Verification hook (compiled only with `--cfg ragc_verif`): lets a simulator that includes
+/// this file as a module drive the real `create` driver in-process.
+#[cfg(ragc_verif)]
+#[allow(clippy::too_many_arguments)]
+pub fn verif_create_archive(
+    output: PathBuf,
+    inputs: Vec<PathBuf>,
+    kmer_length: u32,
+    segment_size: u32,
+    min_match_len: u32,
+    pack_cardinality: u32,
+    compression_level: i32,
+    verbosity: u32,
+    threads: Option<usize>,
+    queue_capacity_str: &str,
+    fallback_frac: f64,
+) -> Result<()> {
+    create_archive(
+        output,
+        inputs,
+        kmer_length,
+        segment_size,
+        min_match_len,
+        pack_cardinality,
+        compression_level,
+        verbosity,
+        false,
+        false,
+        threads,
+        false,
+        queue_capacity_str,
+        fallback_frac,
+        false,
+    )
+}
